@@ -2,7 +2,7 @@
    Model: Build.build with a failure oracle `fails` and the in-build flag.  Statements only;
    proofs are in theories/Traverse_proofs.v and theories/Build_proofs.v. *)
 From Fiddle Require Import PyBase PySlice Sig ArgStore PyCall Heap Traverse Build Build_stmt
-  Traverse_proofs Build_proofs AnchorsBuild.
+  Traverse_proofs Build_proofs Iterate_proofs C05Check BuildPath_proofs AnchorsBuild.
 
 (* (hypotheses: dict / named-tuple keys are distinct, as in Python; the raising node is a Config,
    not an unfilled TaggedValue, whose own error is not governed by the failure oracle)
@@ -49,3 +49,23 @@ Proof.
   split; [reflexivity|]. exact (proj1 (pure_holds e fl h r s res Hwf Hroots Hrun)).
 Qed.
 Print Assumptions C05_next_build.
+
+(* The path named by the escaping exception (state.current_path when the callable was invoked: the
+   first path that reaches the failing Buildable in traversal order) really leads from the root to
+   the failing Buildable, and it is the first of the paths collect_paths_by_id lists for it. *)
+Theorem C05_path_leads_to_failing_node : forall e fails h r s res,
+  wf_b e h = true -> root_ok h r -> mrun e h (build_node e fails) r = (s, res) ->
+  keys_ok h -> (forall k x, res = inr (FRaise k x) -> ~ is_tagged h k) ->
+  forall k x, res = inr (FRaise k x) ->
+    follow e h r (failing_path e h r k) = Some (RP k)
+    /\ hd_error (paths_to e h (S (length h)) r k) = Some (failing_path e h r k).
+Proof. exact failing_path_leads. Qed.
+Print Assumptions C05_path_leads_to_failing_node.
+
+(* ... and it is the path under which a memoized traversal visits that Buildable (its only visit). *)
+Theorem C05_path_is_visit_path : forall e h r,
+  wf_b e h = true -> keys_ok h -> root_ok h r ->
+  forall k p, In (RP k, p) (snd (iter_memo e h true (S (length h)) [] r [])) ->
+    failing_path e h r k = p.
+Proof. exact failing_path_is_visit_path. Qed.
+Print Assumptions C05_path_is_visit_path.
